@@ -573,6 +573,8 @@ def rule_cache(prog: Program) -> List[Instance]:
             out.append(Instance("R-CACHE", f"{fi.qual}#KEYCOMPLETE", INFO, "default cachetools key hashes every argument", where, nontrivial=False))
             continue
         kf = prog.resolve_name_expr(keyexpr, fi.mod, fi)
+        if isinstance(keyexpr, ast.Lambda):
+            kf = getattr(keyexpr, "_fi", None)
         if not isinstance(kf, FuncInfo):
             out.append(Instance("R-CACHE", f"{fi.qual}#KEYCOMPLETE", UNDET, f"key function `{short(keyexpr)}` not resolved", where))
             continue
@@ -596,6 +598,18 @@ def rule_cache(prog: Program) -> List[Instance]:
             else:
                 out.append(Instance("R-CACHE", f"{fi.qual}#KEYCOMPLETE", OK, f"key function {kf.qual} reads every parameter {kparams}", kf.where()))
 
+        # CRS-tagged parameters: the key must distinguish their CRS (the whole object or its .crs),
+        # otherwise a hit returns a result computed for a look-alike in another CRS and skips the guard
+        from .crsguard import TAGGED
+        for cp_, kp_ in zip([x for x in fi.params() if x.arg != "self"], kf.params()):
+            direct, contained = prog.ann_classes(cp_.annotation, fi.mod)
+            if not ((direct | contained) & TAGGED):
+                continue
+            whole = any(isinstance(n, ast.Name) and n.id == kp_.arg and not isinstance(getattr(n, "_parent", None), ast.Attribute) for r in walk_own(kf.node) if isinstance(r, ast.Return) and r.value is not None for n in ast.walk(r.value))
+            crs_read = any(isinstance(n, ast.Attribute) and n.attr in ("crs", "_crs") and isinstance(n.value, ast.Name) and n.value.id == kp_.arg for n in walk_own(kf.node))
+            okc = whole or crs_read
+            out.append(Instance("R-CACHE", f"{fi.qual}#KEYCRS:{cp_.arg}", OK if okc else BAD,
+                                f"cache key distinguishes the CRS of `{cp_.arg}`" if okc else f"cache key of {fi.qual} ignores the CRS of CRS-tagged parameter `{cp_.arg}`: a hit returns the result computed for a look-alike in another CRS and bypasses the CRS check", kf.where()))
         # KEYCANON: every return is a canonical primitive
         org = Origins(kf)
         cond = Conditions(kf.body)
